@@ -321,7 +321,7 @@ def gen_common(rng, **kw):
 def lf_cases(ctx):
     rng = ctx.rng(3201)
     out = []
-    for i in range(60 if ctx.quick else 400):
+    for i in range(60 if ctx.quick else 200):
         spec, imm, eps, q, p = gen_common(rng)
         n = int(rng.integers(1, 5 if any(spec["c"]) else 7))
         out.append({"kind": "lf", "spec": spec, "imm": imm, "eps": eps, "q": q, "p": p, "n": n})
@@ -331,7 +331,7 @@ def lf_cases(ctx):
 def hmc_cases(ctx):
     rng = ctx.rng(3202)
     out = []
-    for i in range(60 if ctx.quick else 400):
+    for i in range(60 if ctx.quick else 200):
         bar = None
         if i % 3 == 1:
             bar = [dy(rng, 0.0, 1.0, 3), "nan"]
@@ -352,7 +352,7 @@ def hmc_cases(ctx):
 def nuts_cases(ctx):
     rng = ctx.rng(3203)
     out = []
-    for i in range(10 if ctx.quick else 60):
+    for i in range(10 if ctx.quick else 30):
         spec, imm, eps, q, p = gen_common(rng)
         out.append({"kind": "nuts", "spec": spec, "imm": imm, "eps": eps, "q": q, "p": p,
                     "seed": int(rng.integers(0, 2 ** 31)), "depth": int(rng.integers(2, 5 if ctx.quick else 7)),
@@ -556,14 +556,14 @@ class C32(C.Check):
             if c.get("kind") in ("lf", "hmc"):
                 todo.append(c)
         n_hints = len(todo)
-        nrev = (12 if ctx.quick else 80) * budget
+        nrev = (12 if ctx.quick else 60) * budget
         for i in range(nrev):
             spec, imm, eps, q, p = gen_common(rng)
             todo.append({"kind": "lf", "spec": spec, "imm": imm, "eps": eps, "q": q, "p": p, "n": int(rng.integers(1, 9))})
-        for c in hmc_cases(ctx)[: (30 if ctx.quick else 200) * budget]:
+        for c in hmc_cases(ctx)[: (30 if ctx.quick else 150) * budget]:
             todo.append(c)
         for c in ctx.corpus():
-            if c.get("kind") in ("chain", "nutsinv"):
+            if c.get("kind") in ("chain", "nutsinv", "hmc", "lf"):
                 todo.append(c)
         todo.append({"kind": "chain", "shape": 3.0, "eps": 0.9, "n": 2, "nsamp": 150, "seed": 7 + ctx.seed, "q0": 1.0})
         spec, imm, eps, q, p = gen_common(ctx.rng(3211), d=1)
